@@ -66,11 +66,17 @@ type TypeCtx struct {
 }
 
 func isFloat(t types.Type) bool {
+	if t == nil {
+		return false
+	}
 	b, ok := t.Underlying().(*types.Basic)
 	return ok && b.Info()&types.IsFloat != 0
 }
 
 func intInfo(t types.Type) (bits int, signed bool, ok bool) {
+	if t == nil {
+		return 0, false, false
+	}
 	b, isb := t.Underlying().(*types.Basic)
 	if !isb || b.Info()&types.IsInteger == 0 {
 		return 0, false, false
